@@ -99,6 +99,41 @@ def run(chk, repo):
     df = repo.find(LA, "dft")
     par = [a.arg for a in df.args.args]
     chk.require(par == ["blk", "freqs", "normalize"], "dft signature changed: %s" % par)
+    # each bin depends on its own frequency only: a statement loop over the frequencies carries no value from one
+    # frequency to the next (the list the bins are collected in apart)
+    for lp_ in [n for n in ast.walk(df) if isinstance(n, ast.For) and any(isinstance(x, ast.Name) and x.id == "freqs" for x in ast.walk(n.iter))]:
+        assigned_anywhere = {t_.id for n_ in ast.walk(lp_) for t_ in ast.walk(n_) if isinstance(t_, ast.Name) and isinstance(t_.ctx, ast.Store)
+                             and n_ is not lp_.target}
+        assigned_anywhere -= {t_.id for t_ in ast.walk(lp_.target) if isinstance(t_, ast.Name)}
+        carried = set()
+        done = {t_.id for t_ in ast.walk(lp_.target) if isinstance(t_, ast.Name)}
+
+        def scan(stmts, done_):
+            for st_ in stmts:
+                if isinstance(st_, (ast.For, ast.While)):
+                    # names read anywhere in the nested loop (its own targets apart) before this iteration set them
+                    own = {t_.id for t_ in ast.walk(getattr(st_, "target", ast.Pass())) if isinstance(t_, ast.Name)}
+                    for x in ast.walk(st_):
+                        if isinstance(x, ast.Name) and isinstance(x.ctx, ast.Load) and x.id in assigned_anywhere \
+                                and x.id not in done_ and x.id not in own:
+                            carried.add(x.id)
+                        if isinstance(x, ast.AugAssign) and isinstance(x.target, ast.Name) and x.target.id not in done_:
+                            carried.add(x.target.id)
+                    done_ |= {t_.id for n_ in ast.walk(st_) for t_ in ast.walk(n_) if isinstance(t_, ast.Name) and isinstance(t_.ctx, ast.Store)}
+                    continue
+                reads = [x for x in ast.walk(st_) if isinstance(x, ast.Name) and isinstance(x.ctx, ast.Load)]
+                if isinstance(st_, ast.AugAssign) and isinstance(st_.target, ast.Name):
+                    reads.append(st_.target)
+                for x in reads:
+                    if x.id in assigned_anywhere and x.id not in done_:
+                        carried.add(x.id)
+                for x in ast.walk(st_):
+                    if isinstance(x, ast.Name) and isinstance(x.ctx, ast.Store):
+                        done_.add(x.id)
+        scan(lp_.body, set(done))
+        chk.decide(not carried, "C12.dft", WA("dft"), "loop over the frequencies carries no state between bins",
+                   why="%s keep(s) the value of the previous frequency: every bin after the first depends on the bins before it"
+                       % sorted(carried), node=lp_)
     gens = [n for n in ast.walk(df) if isinstance(n, (ast.GeneratorExp, ast.ListComp))]
     outer = [g for g in gens if unparse(g.generators[0].iter) == "freqs"]
     chk.require(len(outer) == 1, "dft: generator over freqs not found")
